@@ -254,6 +254,10 @@ def show(tm, depth=0) -> str:
         return f"elem({show(tm[1], d)})"
     if tag == "comp":
         return f"<{tm[1]}comp {show(tm[2], d)} for … in {show(tm[3][0][1], d) if tm[3] else '?'}>"
+    if tag == "fstr":
+        if len(tm) < 2:
+            return "<fstr>"
+        return "f'" + "".join(x[1] if x[0] == "const" else "{" + show(x[1], d) + "}" for x in tm[1]) + "'"
     if tag == "classconst":
         return f"{tm[1].split('.')[-1]}.{tm[2]}"
     if tag == "coro":
